@@ -11,6 +11,7 @@ with map = {"id", "length", "labels"}.
 """
 from __future__ import annotations
 
+import collections
 import os
 import shutil
 import subprocess
@@ -104,7 +105,8 @@ class Run:
         self.crash_signature = None
         self.crash_text = None
         self.raw = {}        # suffix -> text
-        self.files = {}      # suffix -> records
+        self.files = collections.defaultdict(list)      # suffix -> records (a file that was not written reads as no records;
+        #                                                    C07 and C08 assert the file set itself)
         self.parsed = {}
         self.format_error = None
         self.rows = None
@@ -140,12 +142,24 @@ def _write_inputs(case, d):
     return refp, qryp
 
 
-def _collect(run, d, base="out"):
+def outfile_of(case, outname="out"):
+    """name of the main output file of a run: case["outfile"] (the generators vary extension and spelling, since the
+    additional files are named after it) or <outname>.xmap; with an explicit outname only the extension is taken over"""
+    of = case.get("outfile") or "out.xmap"
+    if outname != "out":
+        return outname + os.path.splitext(of)[1]
+    return of
+
+
+def _collect(run, d, outfile="out.xmap"):
+    """main file = outfile; additional files = <root>_1<ext>, <root>_2<ext> (os.path.splitext, as the option help
+    describes them); any other file whose name starts with <root> is recorded under '?<name>' (unexpected)"""
+    root, ext = os.path.splitext(outfile)
+    names = {outfile: "main", f"{root}_1{ext}": "_1", f"{root}_2{ext}": "_2"}
     for fn in sorted(os.listdir(d)):
-        if fn.startswith(base) and fn.endswith(".xmap"):
-            suf = fn[len(base):-len(".xmap")] or "main"
+        if fn in names or (fn.startswith(root) and fn not in ("ref.cmap", "qry.cmap") and os.path.isfile(os.path.join(d, fn))):
             with open(os.path.join(d, fn)) as f:
-                run.raw[suf] = f.read()
+                run.raw[names.get(fn, "?" + fn)] = f.read()
     run.parse_outputs()
 
 
@@ -164,7 +178,8 @@ def run_case(case, mode=None, keep_dir=False, record=True):
     args = None
     try:
         refp, qryp = _write_inputs(case, d)
-        outp = os.path.join(d, "out.xmap")
+        outfile = outfile_of(case)
+        outp = os.path.join(d, outfile)
         argv = argv_of(case, refp, qryp, outp, mode)
         try:
             args = Args.parse(argv)
@@ -190,7 +205,7 @@ def run_case(case, mode=None, keep_dir=False, record=True):
             gc.collect()
         if rec:
             run.messages = rec.messages
-        _collect(run, d)
+        _collect(run, d, outfile)
     finally:
         if not keep_dir:
             shutil.rmtree(d, ignore_errors=True)
@@ -212,7 +227,8 @@ def run_cli(case, mode=None, cpus=1, launcher=None, env_extra=None, timeout=600,
         refp, qryp = os.path.join(d, "ref.cmap"), os.path.join(d, "qry.cmap")
         if not (workdir and os.path.exists(refp)):
             _write_inputs(case, d)
-        outp = os.path.join(d, outname + ".xmap")
+        outfile = outfile_of(case, outname)
+        outp = os.path.join(d, outfile)
         argv = argv_of(case, refp, qryp, outp, mode, cpus)
         env = dict(os.environ, PYTHONHASHSEED=os.environ.get("PYTHONHASHSEED", "0"), PYTHONDONTWRITEBYTECODE="1",
                    OMP_NUM_THREADS="1", OPENBLAS_NUM_THREADS="1", VERIF_REPO=REPO_DIR)
@@ -237,7 +253,7 @@ def run_cli(case, mode=None, cpus=1, launcher=None, env_extra=None, timeout=600,
                 if l.strip().startswith("File ") and "/src/" in l:
                     frame = l.strip().split("/src/")[-1].replace('", line ', ":").split(",")[0] + ":" + l.strip().rsplit(" in ", 1)[-1]
             run.crash_signature = f"cli-crash:{last.split(':')[0]}@{frame}"
-        _collect(run, d, base=outname)
+        _collect(run, d, outfile)
     finally:
         if not workdir:
             shutil.rmtree(d, ignore_errors=True)
